@@ -399,6 +399,39 @@ fn check_file(
             .collect::<Result<Vec<_>, _>>()
             .map_err(|e| lib_err(&w, "iterator-item-failed", &e))?;
         cmp_all(&w, &recs, t, &lres, mask)?;
+        // an iterator that was advanced and is then skipped forward: next, nth(2), then every second record
+        {
+            let w = format!("{stage}:lazy-iter-skips");
+            let mut it = lazy.record_iterator();
+            let mut want_idx = vec![];
+            let mut got = vec![];
+            if n >= 1 {
+                want_idx.push(0);
+                got.push(it.next());
+            }
+            if n >= 4 {
+                want_idx.push(3);
+                got.push(it.nth(2));
+                let mut i = 4;
+                for r in it.by_ref().step_by(2).take(6) {
+                    want_idx.push(i);
+                    got.push(Some(r));
+                    i += 2;
+                }
+                let produced = want_idx.len() - 2;
+                let expect = ((n - 4) + 1) / 2;
+                if produced != expect.min(6) {
+                    return Err(Fail::new(format!("{w}:wrong-number-of-records"), format!("{n} records: step_by(2) behind next+nth(2) yields {produced} records, expected {}", expect.min(6))));
+                }
+            }
+            for (i, g) in want_idx.iter().zip(got) {
+                match g {
+                    Some(Ok(rec)) => cmp_record(&w, &rec, t, *i, &lres, mask)?,
+                    Some(Err(e)) => return Err(lib_err(&w, "iterator-item-failed", &e)),
+                    None => return Err(Fail::new(format!("{w}:iterator-ends-early"), format!("{n} records: no record {i} from an advanced iterator"))),
+                }
+            }
+        }
         let w = format!("{stage}:lazy-index");
         // every index for small tables; a fixed stride plus both ends for large ones; visited
         // in a scrambled order so that position-dependent state would show
@@ -560,6 +593,26 @@ pub fn check_table(ctx: &Ctx, t: &Table) -> Result<Facts, Fail> {
             return Err(Fail::new(
                 format!("{st}:write-depends-on-what-the-sink-held"),
                 format!("write_records into a sink holding {} older bytes leaves the stream at {pos} / differs from the {}-byte file written into an empty sink", bytes1.len() + 700, bytes1.len()),
+            ));
+        }
+    }
+
+    // one writer instance used for two saves (save, then save again): the second table is written exactly as
+    // a fresh writer writes it — over the first one, or behind it if the writer does not rewind
+    {
+        let mut cur = Cursor::new(Vec::new());
+        let r = {
+            let mut wtr = if t.writer_explicit_schema { DbcWriter::new(&mut cur).with_schema(crate_schema(t)) } else { DbcWriter::new(&mut cur) };
+            wtr.write_records(&rs0).and_then(|_| wtr.write_records(&rs0))
+        };
+        let pos = cur.position() as usize;
+        let buf = cur.into_inner();
+        let over = pos == bytes1.len() && buf.len() >= pos && buf[..pos] == bytes1[..];
+        let behind = pos == 2 * bytes1.len() && buf.len() == pos && buf[..bytes1.len()] == bytes1[..] && buf[bytes1.len()..] == bytes1[..];
+        if r.is_err() || !(over || behind) {
+            return Err(Fail::new(
+                format!("{st}:second-save-of-one-writer-differs-from-a-fresh-writer"),
+                format!("two write_records calls on one DbcWriter: {:?}, stream at {pos}, {} bytes in the sink; a fresh writer writes {} bytes", r.as_ref().err().map(|e| e.to_string()), buf.len(), bytes1.len()),
             ));
         }
     }
